@@ -175,12 +175,18 @@ def _work(ctx: Ctx, item):
 
 
 # ---- dump ---------------------------------------------------------------------------------------------
-def dump_case(entries, items, tmpdir, exclude=()):
+DUMP_UNITS = [{}, {"TEMPERATURE": "C", "ANGLE": "deg", "SPEED": "kts", "PRESSURE": "bar"}, {"TEMPERATURE": "F", "PRESSURE": "psi", "ANGLE": "deg"}]
+
+
+def dump_case(entries, items, tmpdir, exclude=(), units=0, netmap=False):
+    from nmea2000.consts import PhysicalQuantities as PQ
     from nmea2000.decoder import NMEA2000Decoder
     path = os.path.join(tmpdir, "sub", "dump.jsonl")
     if os.path.exists(path):
         os.remove(path)
-    dec = NMEA2000Decoder(dump_to_file=path, dump_pgns=list(entries), exclude_pgns=list(exclude))
+    # the other decoder options are varied too: what is dumped is what is returned (converted units, sender identity, hash)
+    dec = NMEA2000Decoder(dump_to_file=path, dump_pgns=list(entries), exclude_pgns=list(exclude), build_network_map=netmap,
+                          preferred_units={getattr(PQ, q): u for q, u in DUMP_UNITS[units].items()})
     returned = []
     for it in items:
         try:
@@ -193,7 +199,7 @@ def dump_case(entries, items, tmpdir, exclude=()):
     nums = {e for e in entries if isinstance(e, int)}
     ids = {e for e in entries if isinstance(e, str)}
     exp = [m for m in returned if not entries or m.PGN in nums or m.id in ids]
-    case = {"dump_pgns": list(entries), "exclude": list(exclude), "items": [traffic.item_json(i) for i in items]}
+    case = {"dump_pgns": list(entries), "exclude": list(exclude), "units": units, "netmap": netmap, "items": [traffic.item_json(i) for i in items]}
     out = []
     with open(path) as f:
         lines = f.read().split("\n")
@@ -227,9 +233,13 @@ def _dump(ctx: Ctx, item):
     try:
         entry = st.one_of(st.sampled_from(pgns), st.sampled_from(ids), st.sampled_from([60928, "isoAddressClaim", 99999, "noSuchId"]))
 
-        def one(entries, items, exclude):
+        def one(entries, items, exclude, units, netmap):
             ctx.count()
-            res, n_exp, n_ret = dump_case(entries, items, tmpdir, exclude)
+            res, n_exp, n_ret = dump_case(entries, items, tmpdir, exclude, units, netmap)
+            if units:
+                ctx.klass("dump_with_preferred_units")
+            if netmap:
+                ctx.klass("dump_with_network_map")
             if exclude:
                 ctx.klass("dump_with_exclude_filter")
             if any(isinstance(e, str) for e in entries):
@@ -241,7 +251,7 @@ def _dump(ctx: Ctx, item):
             return res
         ctx.hyp(one, st.lists(entry, min_size=0, max_size=4), traffic.history(min_msgs=5, max_msgs=12, twins=True),
                 st.one_of(st.just([]), st.lists(st.one_of(st.sampled_from(pgns), st.sampled_from(ids)), min_size=1, max_size=2)),
-                max_examples=n, name="dump")
+                st.integers(0, len(DUMP_UNITS) - 1), st.booleans(), max_examples=n, name="dump")
     finally:
         shutil.rmtree(tmpdir, ignore_errors=True)
 
@@ -260,7 +270,7 @@ def replay(ctx: Ctx, case):
     if "dump_pgns" in case:
         tmpdir = tempfile.mkdtemp(prefix="vfdump")
         try:
-            res, _, _ = dump_case(case["dump_pgns"], [traffic.item_from_json(i) for i in case["items"]], tmpdir, case.get("exclude", ()))
+            res, _, _ = dump_case(case["dump_pgns"], [traffic.item_from_json(i) for i in case["items"]], tmpdir, case.get("exclude", ()), case.get("units", 0), case.get("netmap", False))
         finally:
             shutil.rmtree(tmpdir, ignore_errors=True)
         return res
